@@ -4,7 +4,8 @@ worktree of /repo (outside /repo and /verif; the checks read it through SA_REPO)
 run the test suite and EVERY quick check, remove the worktree, and record the outcome in harmless/<name>/meta.json.
 A VIOLATION here is a false alarm of the machinery (or, with no-failing-input-found, a broken correspondence that the
 interface allows but that we want to know about)."""
-import json, subprocess, sys, time
+import json, os, subprocess, sys, time
+from concurrent.futures import ThreadPoolExecutor
 from pathlib import Path
 VERIF = Path(__file__).resolve().parent.parent
 REPO = Path("/repo")
@@ -13,6 +14,7 @@ def sh(cmd, cwd=None):
     p = subprocess.run(cmd, shell=True, cwd=cwd, capture_output=True, text=True)
     return p.returncode, p.stdout + p.stderr
 
+JOBS = int(os.environ.get("J", "6"))   # quick checks of one rewrite run J at a time
 names = sys.argv[1:] or sorted(d.name for d in (VERIF / "harmless").iterdir() if (d / "patch.diff").exists())
 ids = [c["property_id"] for c in json.load(open(VERIF / "MANIFEST.json"))["checks"]]
 for name in names:
@@ -29,11 +31,17 @@ for name in names:
     try:
         rc, out = sh("/venv/bin/python -m pytest -q -p no:cacheprovider tests 2>&1 | tail -1", cwd=wt)
         suite = out.strip()
-        for pid in ids:
+        def one(pid):
             rc, out = sh(f"SA_REPO={wt} ./check {pid} --tier quick", cwd=VERIF)
             v = [l for l in out.splitlines() if l.startswith("VIOLATION")]
-            res[pid] = "ok" if rc == 0 else ("VIOLATION no-failing-input-found" if v and "no-failing-input-found" in v[0]
-                                              else "VIOLATION" if v else f"exit {rc}")
+            first = [l[:300] for l in out.splitlines() if l.startswith(("PROPFAIL", "DISAGREE", "ERR", "LEAN-GATE", "HARNESS"))][:2]
+            return pid, ("ok" if rc == 0 else ("VIOLATION no-failing-input-found" if v and "no-failing-input-found" in v[0]
+                                              else "VIOLATION" if v else f"exit {rc}")), first
+        with ThreadPoolExecutor(JOBS) as ex:
+            for pid, r, first in ex.map(one, ids):
+                res[pid] = r
+                if r != "ok":
+                    print("   ", name, pid, r, first, flush=True)
     finally:
         sh(f"git -C {REPO} worktree remove --force {wt}")
     meta = {"suite": suite, "checks": res, "at": time.strftime("%Y-%m-%dT%H:%M:%SZ", time.gmtime())}
